@@ -278,3 +278,50 @@ theorem specAll_filterMap (filter : Frame → Bool) (outcome : Frame → FOut P)
 
 end
 end Tins.Capture
+
+namespace Tins.Capture
+section
+variable {P : Type}
+
+/-- the frame makes an exception leave its handler -/
+def FOut.isEscape : FOut P → Bool
+  | .escape _ => true
+  | _ => false
+
+/-- the frame does not end the iteration with an exception: the filter rejects it, or its handler returns -/
+def passes (filter : Frame → Bool) (outcome : Frame → FOut P) (f : Frame) : Bool :=
+  !(filter f && (outcome f).isEscape)
+
+/-- up to the first accepted frame whose handler lets an exception out, draining behaves as if the file ended
+    there; from that frame on nothing is delivered -/
+theorem specAll_takeWhile (filter : Frame → Bool) (outcome : Frame → FOut P) :
+    ∀ (frames : List Frame),
+      (specAll filter outcome frames).1 = (specAll filter outcome (frames.takeWhile (passes filter outcome))).1 ∧
+      (specAll filter outcome (frames.takeWhile (passes filter outcome))).2 = .eof ∧
+      ((specAll filter outcome frames).2 = .eof ↔ ∀ f ∈ frames, passes filter outcome f = true) := by
+  intro frames
+  induction frames with
+  | nil => simp [specAll]
+  | cons f fs ih =>
+    obtain ⟨ih1, ih2, ih3⟩ := ih
+    cases hf : filter f with
+    | false =>
+      have hp : passes filter outcome f = true := by simp [passes, hf]
+      simp only [List.takeWhile_cons, hp, if_true, specAll, hf, List.mem_cons, forall_eq_or_imp]
+      exact ⟨ih1, ih2, by simp [ih3]⟩
+    | true =>
+      cases ho : outcome f with
+      | pkt p =>
+        have hp : passes filter outcome f = true := by simp [passes, ho, FOut.isEscape]
+        simp only [List.takeWhile_cons, hp, if_true, specAll, hf, ho, List.mem_cons, forall_eq_or_imp]
+        exact ⟨by rw [ih1], ih2, by simp [ih3]⟩
+      | skip =>
+        have hp : passes filter outcome f = true := by simp [passes, ho, FOut.isEscape]
+        simp only [List.takeWhile_cons, hp, if_true, specAll, hf, ho, List.mem_cons, forall_eq_or_imp]
+        exact ⟨ih1, ih2, by simp [ih3]⟩
+      | escape e =>
+        have hp : passes filter outcome f = false := by simp [passes, hf, ho, FOut.isEscape]
+        simp [List.takeWhile_cons, hp, specAll, hf, ho]
+
+end
+end Tins.Capture
